@@ -580,6 +580,9 @@ def f_own_datatype(case, obs, failure):
     (ownProperties['datatype']) was modified by the definition of a class overriding it by a bare value"""
     ci = _class_of(case, failure['entity'])
     names = failure['names']
+    if names == ['*'] and failure['entity'][0] == 'i':
+        ent = f'c{ci}'
+        names = changed_names(obs['iso'].get(ent), obs['final'].get(ent))
     if not names or any(n.startswith('*') for n in names):
         return False
     mut = {(c, n) for m in obs['own_mut'] for c, n in m}
@@ -589,6 +592,12 @@ def f_own_datatype(case, obs, failure):
 
 def f_either(case, obs, failure):
     names = failure['names']
+    if names == ['*'] and failure['entity'][0] == 'i':
+        # the instance exists in only one of the two worlds: explained iff the description of its class differs
+        # between them, in accessibles that a known finding covers
+        ent = f'c{_class_of(case, failure["entity"])}'
+        names = changed_names(obs['iso'].get(ent), obs['final'].get(ent))
+        failure = dict(failure, names=names)
     if not names or any(n.startswith('*') for n in names):
         return False
     return all(f_inplace_merge(case, obs, dict(failure, names=[n])) or f_own_datatype(case, obs, dict(failure, names=[n]))
